@@ -400,6 +400,8 @@ impl Array {
                 }
             }
         }
+        #[cfg(feature = "corgi_verif")]
+        verif_hook::step();
     }
 
     /// Computes the backward pass, computing gradients for all descendants, and propagating consumer counts if requested.
@@ -423,6 +425,8 @@ impl Array {
             }
         };
 
+        #[cfg(feature = "corgi_verif")]
+        verif_hook::step();
         match &self.backward_op {
             Some(x) => {
                 let is_tracked: Vec<bool> =
@@ -814,6 +818,41 @@ fn flatten_indices(indices: &[usize], dimensions: &[usize]) -> usize {
     iter.zip(dimensions.iter().skip(1))
         .filter(|&(_, d)| *d != 1)
         .fold(*first, |acc, (i, d)| acc * d + i)
+}
+
+/// Verification hooks, only compiled with the `corgi_verif` feature: a per-thread counter of the node visits made by
+/// backward passes (consumer counting, and adjoint delivery), with an optional budget which panics when exceeded.
+#[cfg(feature = "corgi_verif")]
+pub mod verif_hook {
+    use std::cell::Cell;
+
+    thread_local! {
+        static STEPS: Cell<u64> = Cell::new(0);
+        static BUDGET: Cell<u64> = Cell::new(0);
+    }
+
+    /// Resets the step counter, and sets the budget (0 disables the budget).
+    pub fn arm(budget: u64) {
+        STEPS.with(|s| s.set(0));
+        BUDGET.with(|b| b.set(budget));
+    }
+
+    /// Returns the number of node visits since the counter was last reset.
+    pub fn steps() -> u64 {
+        STEPS.with(|s| s.get())
+    }
+
+    pub(crate) fn step() {
+        let steps = STEPS.with(|s| {
+            s.set(s.get() + 1);
+            s.get()
+        });
+        let budget = BUDGET.with(|b| b.get());
+        if budget > 0 && steps > budget {
+            BUDGET.with(|b| b.set(0));
+            panic!("corgi_verif: step budget of {} node visits exceeded", budget);
+        }
+    }
 }
 
 // TODO implement higher-order derivatives
